@@ -1,6 +1,12 @@
 // C52 (part 3): the JSON-RPC HTTP handler executes an RPC only with valid credentials.
 // httprpc.cpp is compiled into this translation unit (from /repo's working tree) so that its file-static handler
 // HTTPReq_JSONRPC and InitRPCAuthentication can be called directly; requests are produced by the real HTTP parser.
+// The externally visible functions of httprpc.cpp get private names here so that this copy can coexist with the
+// library's (or a separately compiled) httprpc.o at link time.
+#define StartHTTPRPC vx_c52_StartHTTPRPC
+#define InterruptHTTPRPC vx_c52_InterruptHTTPRPC
+#define StopHTTPRPC vx_c52_StopHTTPRPC
+#define ExecuteHTTPRPC vx_c52_ExecuteHTTPRPC
 #include <httprpc.cpp>
 
 #include <test/util/net.h>
